@@ -57,6 +57,7 @@ func (s *Service) VerifEvictAll(partID uint64) {
 }
 
 type VerifEntry struct {
+	Corrupt    bool
 	HKey       uint64
 	Key        string
 	Value      []byte
@@ -110,10 +111,12 @@ func (s *Service) VerifFragments() []VerifFragment {
 								continue
 							}
 							seen[h[0]] = true
-							e := kv.NewEntry()
-							e.Decode(t.Memory[h[1]:])
-							vf.Entries = append(vf.Entries, VerifEntry{HKey: h[0], Key: e.Key(), Value: append([]byte{}, e.Value()...),
-								TTL: e.TTL(), Timestamp: e.Timestamp(), LastAccess: e.LastAccess()})
+							ve, ok := verifDecode(kv, h[0], t.Memory[h[1]:])
+							if !ok {
+								// the stored bytes do not decode (corrupt entry): report it instead of panicking
+								ve = VerifEntry{HKey: h[0], Key: "<corrupt entry>", Corrupt: true}
+							}
+							vf.Entries = append(vf.Entries, ve)
 						}
 					}
 					sort.Slice(vf.Entries, func(i, j int) bool { return vf.Entries[i].Key < vf.Entries[j].Key })
@@ -123,6 +126,18 @@ func (s *Service) VerifFragments() []VerifFragment {
 		}
 	}
 	return out
+}
+
+func verifDecode(kv *kvstore.KVStore, hkey uint64, mem []byte) (ve VerifEntry, ok bool) {
+	defer func() {
+		if recover() != nil {
+			ok = false
+		}
+	}()
+	e := kv.NewEntry()
+	e.Decode(mem)
+	return VerifEntry{HKey: hkey, Key: e.Key(), Value: append([]byte{}, e.Value()...),
+		TTL: e.TTL(), Timestamp: e.Timestamp(), LastAccess: e.LastAccess()}, true
 }
 
 // VerifInject stores an entry directly into a fragment of this member (building conflicting
